@@ -165,7 +165,9 @@ func (core *JApiCore) processEOF() *jerr.JApiError {
 	if je := core.processCurrentDirective(); je != nil {
 		return je
 	}
-	if core.HasUnclosedExplicitContext() {
+	// The end of an included file does not end the document: an explicit context of
+	// the including file is still open there, legitimately.
+	if core.scannersStack.Empty() && core.HasUnclosedExplicitContext() {
 		return core.japiError(jerr.ContextNotClosed, core.scanner.CurrentIndex()-1)
 	}
 	return nil
